@@ -113,7 +113,8 @@ type world struct {
 	refuse *authkit.Server
 	nodes  []Node
 	mu     sync.Mutex
-	gen    map[string]int // REFGEN zone -> labels of the deepest cut handed out
+	gen    map[string]int // REFGEN zone -> labels of the deepest cut handed out (under mu)
+	isGen  map[string]bool // REFGEN zones (immutable after build)
 	fan    map[string]int
 	self   map[string]net.IP
 	stress *Stress
@@ -133,7 +134,7 @@ func build(c *Case) (*world, error) {
 	if err != nil {
 		return nil, err
 	}
-	w := &world{n: n, nodes: c.Nodes, gen: map[string]int{}, fan: map[string]int{}, self: map[string]net.IP{}, stress: c.Stress,
+	w := &world{n: n, nodes: c.Nodes, gen: map[string]int{}, isGen: map[string]bool{}, fan: map[string]int{}, self: map[string]net.IP{}, stress: c.Stress,
 		bogus: map[string]*authkit.Key{}}
 	opts := authkit.DelegateOpts{Signed: c.Signed, PublishDS: c.Signed}
 	tz, _, err := n.Delegate("test.", opts)
@@ -205,6 +206,7 @@ func build(c *Case) (*world, error) {
 			w.self[zn] = n.AllocGlue(w.leaf)
 		case "REFGEN":
 			w.gen[zn] = dns.CountLabel(zn)
+			w.isGen[zn] = true
 			w.fan[zn] = nd.Fan
 		default:
 			return nil, fmt.Errorf("unknown node kind %q", nd.Kind)
@@ -262,7 +264,7 @@ func (w *world) leafHook(ex *authkit.Exchange) {
 		ex.Resp = m
 		return
 	}
-	if _, ok := w.gen[zn]; ok {
+	if w.isGen[zn] {
 		w.genReply(ex, zn)
 		return
 	}
